@@ -75,6 +75,10 @@ void TSB_scheduleBulkImpl(size_t count) __CPROVER_requires(SPRE && count <= 1000
 void TSB_scheduleBulkImplPlaced(size_t count) __CPROVER_requires(SPRE && count <= 100000) __CPROVER_ensures(SPOST) FR
 #include "TSB_scheduleBulkImplPlaced.body.inc"
 
+/* scheduleBulk(count, gen, ForceQueuingTag): every chunk is credited before it is handed to the pool (C02); nothing is invoked (C04/C47) */
+void TSB_scheduleBulkImplForceQueue(size_t count) __CPROVER_requires(SPRE && count <= 100000) __CPROVER_ensures(SPOST) FR
+#include "TSB_scheduleBulkImplForceQueue_ledger.body.inc"
+
 /* ---- cancel(): marks the set and cascades to every registered child, whatever the previous state ---- */
 size_t g_nchildren, g_children_cancelled; bool g_locked, g_child_order_bad;
 static void G_lock(void) { g_locked = 1; }
@@ -139,6 +143,7 @@ void h_CTS_schedule(void) { mk(); bool s; CTS_schedule(s); }
 void h_CTS_schedulePlaced(void) { mk(); bool s; CTS_schedulePlaced(s); }
 void h_TSB_scheduleBulkImpl(void) { mk(); size_t c; TSB_scheduleBulkImpl(c); }
 void h_TSB_scheduleBulkImplPlaced(void) { mk(); size_t c; TSB_scheduleBulkImplPlaced(c); }
+void h_TSB_scheduleBulkImplForceQueue(void) { mk(); size_t c; TSB_scheduleBulkImplForceQueue(c); }
 void h_TSB_cancelChildren(void) { g_children_cancelled = 0; g_child_order_bad = 0; g_locked = 0; TSB_cancelChildren(); }
 void h_TSB_cancel(void) { mk(); g_children_cancelled = 0; g_child_order_bad = 0; g_locked = 0; TSB_cancel(); }
 void h_TSB_ctor_parent(void) { g_canceled = 0; g_bad_order = 0; g_registered = 0; TSB_ctor_parent(); }
